@@ -47,5 +47,10 @@ run_one() {
 export -f run_one
 printf '%s\n' "${names[@]}" | xargs -P "$JOBS" -I{} bash -c "run_one {} $TIER"
 jq -s 'sort_by(.name)' $(for n in "${names[@]}"; do echo /tmp/seeded-results/$n.json; done) > /tmp/seeded-results/ALL.json
-if [ $# -eq 0 ]; then cp /tmp/seeded-results/ALL.json seeded/RESULTS.$TIER.json; fi
+# merge into the committed table (entries of other names are kept)
+if [ -f seeded/RESULTS.$TIER.json ]; then
+  jq -s '(.[0] + .[1]) | group_by(.name) | map(.[-1]) | sort_by(.name)' seeded/RESULTS.$TIER.json /tmp/seeded-results/ALL.json > /tmp/seeded-results/MERGED.json && cp /tmp/seeded-results/MERGED.json seeded/RESULTS.$TIER.json
+else
+  cp /tmp/seeded-results/ALL.json seeded/RESULTS.$TIER.json
+fi
 jq -r '.[] | [.name, .property, (if .applies then (.runs | map(.check + ":" + (if .detected then "DETECTED" else "missed(rc=" + (.exit|tostring) + ")" end)) | join(" ")) else "PATCH-DOES-NOT-APPLY" end)] | @tsv' /tmp/seeded-results/ALL.json
